@@ -8,7 +8,7 @@
     recursion over the directory tree (C02_verify_is_body), so every statement below applies at
     every nesting depth. *)
 From InToto.Model Require Import Base Json Strs Utf8 Canon Rule Glob Rules Expiry Subst Meta Verify.
-From InToto.Proofs Require Import VerifySpec ThresholdSpec VerifyThreshold VerifyIgnored ThresholdExamples.
+From InToto.Proofs Require Import VerifySpec ThresholdSpec VerifyThreshold VerifyIgnored LayoutNames ThresholdExamples.
 
 Section C02.
   Variable b64dec : str -> option (list N).
@@ -143,6 +143,12 @@ Section C02.
     exact (ignored_accept b64dec loads sig_ok now_s now_us exec files files' fn j md H1 H2 recs missing a sum tr).
   Qed.
 
+  (** the guard "distinct step names" holds for every layout loaded from a file (Layout validation),
+      before and after parameter substitution *)
+  Theorem C02_names_guard_holds : forall j a l, from_dict b64dec loads j = Ok (a_md a) ->
+    pre_layout a = Ok l -> NoDup (map st_name (ly_steps l)).
+  Proof. exact (evaluated_layout_names b64dec loads sig_ok now_s now_us). Qed.
+
   (** the expired-key skip: a gpg key past creation + validity makes the check answer
       KeyExpirationError, which [link_skipped] (hence [bad_file_b]) classifies as skipped *)
   Theorem C02_expired_key : forall sg key msg skid mkid sval c v,
@@ -204,5 +210,6 @@ Print Assumptions C02_counts_once.
 Print Assumptions C02_never_supplies.
 Print Assumptions C02_ignored.
 Print Assumptions C02_ignored_accept.
+Print Assumptions C02_names_guard_holds.
 Print Assumptions C02_expired_key.
 Print Assumptions C02_family_mismatch_refuted.
